@@ -15,6 +15,7 @@ import (
 func init() {
 	commands["c01"] = func(seed uint64, n int, out, stats string, a []string) { runLedgerMon("C01", seed, n, out, stats) }
 	commands["c02"] = func(seed uint64, n int, out, stats string, a []string) { runLedgerMon("C02", seed, n, out, stats) }
+	commands["c03node"] = func(seed uint64, n int, out, stats string, a []string) { runLedgerMon("C03", seed, n, out, stats) }
 	commands["c05node"] = func(seed uint64, n int, out, stats string, a []string) { runLedgerMon("C05", seed, n, out, stats) }
 	commands["c06node"] = func(seed uint64, n int, out, stats string, a []string) { runLedgerMon("C06", seed, n, out, stats) }
 }
@@ -35,9 +36,33 @@ func runLedgerMon(pid string, seed uint64, n int, out, stats string) {
 	nontriv := 0
 	for i := 0; i < n; i++ {
 		s := seed*1000003 + uint64(i)
+		if only := os.Getenv("VERIF_ONLY"); only != "" && only != strconv.Itoa(i) {
+			continue
+		}
 		r := NewRng(s)
 		spec := stdSpec(r)
 		g := &genOpts{Blocks: 20 + r.Intn(60), TxPerBlock: 6, Absences: true, Evidence: r.Intn(3) == 0, Malformed: true, Monitors: true, CheckDeliver: pid == "C06", CandAuth: pid == "C05"}
+		if pid == "C03" {
+			g.FailFrame, g.Monitors, g.Absences, g.Evidence = true, false, false, false
+			g.Blocks, g.TxPerBlock = 60+r.Intn(120), 1
+			// delegators that also sit on the waitlist of the same candidate with the same coin
+			spec.Mutate = func(st *types.AppState) {
+				for ci := range st.Candidates {
+					for _, sk := range st.Candidates[ci].Stakes {
+						if r.Intn(2) == 0 {
+							st.Waitlist = append(st.Waitlist, types.Waitlist{CandidateID: st.Candidates[ci].ID, Owner: sk.Owner, Coin: sk.Coin, Value: pip(int64(10 + r.Intn(300))).String()})
+						}
+					}
+				}
+			}
+			g.Weights = map[string]int{}
+			for _, k := range kinds {
+				g.Weights[k] = 1
+			}
+			for k, v := range map[string]int{"unbond": 8, "move": 5, "delegate": 5, "send": 3, "lock": 2, "sellpool": 2, "buypool": 2, "addorder": 2, "remorder": 2, "redeem": 2} {
+				g.Weights[k] = v
+			}
+		}
 		if pid == "C05" {
 			g.Weights = map[string]int{"send": 3, "declare": 3, "delegate": 3, "editcand": 10, "editcomm": 6, "candon": 6, "candoff": 6, "unbond": 2, "sethalt": 1, "voteupdate": 1, "createtoken": 1}
 		}
@@ -70,6 +95,10 @@ func runLedgerMon(pid string, seed uint64, n int, out, stats string) {
 		if pid == "C05" {
 			fails = res.C05
 			agree += res.C05Checked
+		}
+		if pid == "C03" {
+			fails = res.C03
+			agree += res.C03Checked
 		}
 		for _, f := range fails {
 			f.Replay = fmt.Sprintf("vharness %s -seed %d -n %d (history %d, seed %d)", pid, seed, n, i, s)
